@@ -179,7 +179,7 @@ theorem Inv.ack_state {s : S} {mid : Nat} {m : OutMsg} (hi : Inv s)
   · intro u
     rw [hlen]
     have hlogeq : (ackState s mid m).log = s.log ++ [Ev.onPublish mid, Ev.completed m.info mid,
-      Ev.infoDone m.info ((s.infos[m.info]?.map (·.rc)).getD 0)] := rfl
+      Ev.infoDone m.info rcSuccess] := rfl
     rw [hlogeq, List.filter_append]
     by_cases hu : m.info = u
     · subst hu
@@ -193,18 +193,18 @@ theorem Inv.ack_state {s : S} {mid : Nat} {m : OutMsg} (hi : Inv s)
       simp only [List.filter_cons, isComplOf, decide_true, List.filter_nil]
       refine ⟨by simp, fun _ => ⟨hrange.2.2.1, hnotin⟩⟩
     · have : List.filter (isComplOf u) [Ev.onPublish mid, Ev.completed m.info mid,
-          Ev.infoDone m.info ((s.infos[m.info]?.map (·.rc)).getD 0)] = [] := by
+          Ev.infoDone m.info rcSuccess] = [] := by
         simp [isComplOf, hu]
       rw [this, List.append_nil]
       refine ⟨(hi.once u).1, fun h => ?_⟩
       obtain ⟨h1, h2⟩ := (hi.once u).2 h
       exact ⟨h1, fun hin => h2 ((hsub.map _).subset hin)⟩
   · show CB (s.log ++ [Ev.onPublish mid, Ev.completed m.info mid,
-      Ev.infoDone m.info ((s.infos[m.info]?.map (·.rc)).getD 0)])
+      Ev.infoDone m.info rcSuccess])
     have : s.log ++ [Ev.onPublish mid, Ev.completed m.info mid,
-        Ev.infoDone m.info ((s.infos[m.info]?.map (·.rc)).getD 0)] =
+        Ev.infoDone m.info rcSuccess] =
         (s.log ++ [Ev.onPublish mid, Ev.completed m.info mid]) ++
-          [Ev.infoDone m.info ((s.infos[m.info]?.map (·.rc)).getD 0)] := by simp
+          [Ev.infoDone m.info rcSuccess] := by simp
     rw [this]
     exact (hi.cb.snoc_compl m.info mid).append (by intro e he; simp at he; subst he; rfl)
 
